@@ -236,7 +236,8 @@ class AbstractGrader(ObjectWithSchema):
             self.log("Student Response:\n" + str(student_input))
         # Add in the modified defaults
         if self.modified_defaults:
-            output = json.dumps(self.modified_defaults)
+            # Registered defaults may hold objects (credit schedules, subgraders): show those by repr
+            output = json.dumps(self.modified_defaults, default=repr)
             self.log("Using modified defaults: {}".format(output))
         self.log_created = True
 
